@@ -750,6 +750,86 @@ def r10_4(prog: Program, chk: Check) -> None:
 _run_123 = run
 
 
+# --------------------------------------------------------------------- R10.5
+def r10_5(prog: Program, chk: Check) -> None:
+    import copy
+
+    from ..minterp import AssertionFailed, Interp, ModelError, Obj, PyRaise, Sym, Unsupported
+
+    chk.rule(
+        "R10.5",
+        "the merges of bounds maps are pure, as a finite model: unify_bounds_maps and intersect_bounds_maps are interpreted from their AST on every sequence of up to three maps "
+        "over two type variables whose bound lists have 0-2 elements; the input maps and their lists are the same afterwards (a successful protocol match is cached and handed out "
+        "again: a merge that extends a caller's list leaks the bounds of one call into every later one), the result does not share a list with an input, and merging the same "
+        "inputs twice gives equal results",
+        floor=3,
+    )
+    fns = {name: prog.func("value", name) for name in ("unify_bounds_maps", "intersect_bounds_maps")}
+
+    class B(Obj):
+        def key(self):
+            return (self._kind, self._attrs.get("name"), tuple(self._attrs.get("bounds", ())) if self._kind == "OrBound" else None)
+
+        def __eq__(self, other):
+            return isinstance(other, B) and self.key() == other.key()
+
+        def __hash__(self):
+            return hash(self.key())
+
+    def or_bound(args):
+        return B("OrBound", bounds=tuple(tuple(x) for x in args[0]))
+
+    import itertools
+
+    tvs = (Sym("T"), Sym("U"))
+    lists = [[], ["b1"], ["b1", "b2"], ["b3"]]
+    maps = []
+    for lt, lu in itertools.product([None] + lists, [None] + lists[:2]):
+        m = {}
+        if lt is not None:
+            m[tvs[0]] = [B("Bound", name=x) for x in lt]
+        if lu is not None:
+            m[tvs[1]] = [B("Bound", name=x) for x in lu]
+        maps.append(m)
+    mutated, shared, unstable, crashes = [], [], [], []
+    n = 0
+    for fname, fn in fns.items():
+        for k in (1, 2, 3):
+            for combo in itertools.product(range(len(maps)), repeat=k):
+                if k == 3 and (combo[0] + combo[1] + combo[2]) % 3:
+                    continue
+                n += 1
+                inputs = [{tv: list(bs) for tv, bs in maps[i].items()} for i in combo]
+                snapshot = [{tv: list(bs) for tv, bs in m.items()} for m in inputs]
+                it = Interp({}, {}, (), {"OrBound": or_bound}, lambda v, c: None, {}, {}, {})
+                d = {"function": fname, "maps": [{str(tv): [b._attrs["name"] for b in bs] for tv, bs in m.items()} for m in snapshot]}
+                try:
+                    r1 = it.call_def(fn, [inputs], fn)
+                    after_first = [{tv: list(bs) for tv, bs in m.items()} for m in inputs]
+                    r2 = it.call_def(fn, [inputs], fn)
+                except Unsupported as u:
+                    raise AnchorError(f"{fname} cannot be modelled: {u}")
+                except (AssertionFailed, PyRaise, ModelError) as e:
+                    crashes.append({**d, "error": str(e)})
+                    continue
+                if after_first != snapshot or [{tv: list(bs) for tv, bs in m.items()} for m in inputs] != snapshot:
+                    mutated.append({**d, "maps_after": [{str(tv): [b._attrs.get("name", "<or>") for b in bs] for tv, bs in m.items()} for m in inputs]})
+                if isinstance(r1, dict) and any(v is bs for v in r1.values() for m in inputs for bs in m.values()):
+                    shared.append(d)
+                if r1 != r2:
+                    unstable.append(d)
+    chk.model_evaluations += n
+    chk.analysed["bounds_merge_model"] = {"merges": n}
+    site = prog.site("value", fns["unify_bounds_maps"])
+    for lst in (mutated, shared, unstable, crashes):
+        lst.sort(key=lambda x: (len(repr(x["maps"])), repr(x)))
+    chk.ob("R10.5", "value::bounds-merge-model::the input maps are unchanged", not mutated, site, f"{n} merges, {len(mutated)} mutate an input" + (f"; smallest: {mutated[0]}" if mutated else ""), witness=mutated[:4])
+    chk.ob("R10.5", "value::bounds-merge-model::the result shares no list with an input", not shared, site, f"{len(shared)} results alias an input list" + (f"; smallest: {shared[0]}" if shared else ""), witness=shared[:4])
+    chk.ob("R10.5", "value::bounds-merge-model::merging twice gives equal results", not unstable, site, f"{len(unstable)} merges differ on repetition" + (f"; smallest: {unstable[0]}" if unstable else ""), witness=unstable[:4])
+    chk.ob("R10.5", "value::bounds-merge-model::no-crash", not crashes, site, f"{len(crashes)} crashes" + (f"; first: {crashes[0]}" if crashes else ""), witness=crashes[:3])
+
+
 def run(prog: Program, chk: Check) -> None:  # noqa: F811
     guard(chk, _run_123, prog, chk)
     guard(chk, r10_4, prog, chk)
+    guard(chk, r10_5, prog, chk)
